@@ -46,6 +46,7 @@ MAX_INCONCLUSIVE = 0.3
 ATTEMPT_BUDGET = 3000
 REPORT_BUDGET = 200  # interpolation reports per run (there are at most NUM_CKPT + 1 legitimate ones)
 NUM_CKPT = 5
+ATOL, RTOL, DAMP = 0.25, 4.0, 0.5  # distinct values handed to the drivers: the scripted estimator must receive exactly these
 PIECES = 6
 
 
@@ -188,7 +189,7 @@ def _parts(kind, log):
                 ep = (h_adm / dt) ** p
                 # watchdog step (attempt budget exhausted, the scripted solver jumped): let the run end
                 ep = jnp.where(proposed.t - previous.t > 1e29, 1.0, ep)
-                jax.debug.callback(log.add("err"), previous.t, dt, ep, proposed.t, state, ordered=True)
+                jax.debug.callback(log.add("err"), previous.t, dt, ep, proposed.t, state, jnp.asarray(atol, float), jnp.asarray(rtol, float), jnp.asarray(damp, float), ordered=True)
                 # the estimator state counts the calls it has seen (like a random key that is advanced per call):
                 # the state handed to an attempt must be the one that belongs to the state the attempt starts from
                 return ep, state + 1.0
@@ -220,7 +221,7 @@ def _runner(kind, clip, num_save):
 
     def run(save_at, dt0, eps, breaks, values, p, cparams):
         solve = ivpsolve.solve_adaptive_save_at(solver=FakeSolver(), error=make_error(breaks, values, p), control=make_control(cparams), clip_dt=clip, warn=False)
-        sol = solve(jnp.zeros(()), save_at=save_at, atol=1.0, rtol=1.0, dt0=dt0, eps=eps, damp=0.0)
+        sol = solve(jnp.zeros(()), save_at=save_at, atol=ATOL, rtol=RTOL, dt0=dt0, eps=eps, damp=DAMP)
         return sol.t, sol.u, sol.num_steps
 
     jitted = jax.jit(run)
@@ -403,7 +404,7 @@ def _every_step_runner(kind, clip):
         log.last = time.time() + 120.0
         try:
             with common.lib_call("solve_adaptive_save_every_step(scripted)"):
-                sol = solve(jnp.zeros(()), 0.0, float(T), atol=1.0, rtol=1.0, dt0=float(dt0), eps=float(eps))
+                sol = solve(jnp.zeros(()), 0.0, float(T), atol=ATOL, rtol=RTOL, dt0=float(dt0), eps=float(eps), damp=DAMP)
                 out = [np.asarray(sol.t), np.asarray(sol.u), np.asarray(sol.num_steps)]
         finally:
             log.last = None
@@ -456,7 +457,7 @@ def _machine_runner(kind, clip):
 
     @jax.jit
     def apply(state, t1, eps, breaks, values, p, cparams):
-        return mk_loop(breaks, values, p, cparams).loop(state, t1=t1, atol=1.0, rtol=1.0, eps=eps, damp=0.0)
+        return mk_loop(breaks, values, p, cparams).loop(state, t1=t1, atol=ATOL, rtol=RTOL, eps=eps, damp=DAMP)
 
     _CACHE[key] = (log, init, apply)
     return _CACHE[key]
@@ -549,7 +550,9 @@ def _monitor(res, case, save_at, ts, us, nsteps, ev, mode="save_at"):
             if i + 2 >= len(ev) or ev[i + 1][0] != "err" or ev[i + 2][0] != "ctrl":
                 raise RuntimeError("trace is not made of (step, err, ctrl) triples")
             _, t, dt, u, n = e
-            _, te, dte, ep, t_new, est_in = ev[i + 1]
+            _, te, dte, ep, t_new, est_in, atol_seen, rtol_seen, damp_seen = ev[i + 1]
+            if (atol_seen, rtol_seen, damp_seen) != (ATOL, RTOL, DAMP):
+                res.violate("I7:estimator_tolerances", f"the error estimator received (atol, rtol, damp) = {(atol_seen, rtol_seen, damp_seen)}, the caller passed {(ATOL, RTOL, DAMP)}")
             _, dt_in, ep_c, dt_out, mem_in, mem_out = ev[i + 2]
             # I1 / I9: every attempt starts from the state of the last accepted attempt, bit-identically
             if t != t_cur or u != u_cur or n != n_cur:
